@@ -42,7 +42,10 @@ def gen(rng, tier):
     return out
 
 
-MAXLEN = 140000        # largest length a large-array history may reach (model driver cost is O(capacity) per op)
+# Largest length a large-array history may reach.  This is a limit of the harness, not of the property or
+# the theorems: the extracted list functions are not tail-recursive and the native OCaml stack (8 MiB) ends
+# somewhere above 250 000 elements (MODEL-EXN stack_overflow); the capacity stays <= 2 * MAXLEN.
+MAXLEN = 100000
 
 
 def gen_big(rng, n):
@@ -86,6 +89,7 @@ def gen_big(rng, n):
 
         def do_put(i, e, ins):
             L = len(sh)
+            i = min(i, MAXLEN - 1)
             ops.append("%s%d,%s" % ("I" if ins else "P", i, estr(e)))
             if i >= L:
                 if grow(i + 1):
@@ -97,7 +101,7 @@ def gen_big(rng, n):
                 sh[i] = e
 
         def do_many(k):
-            k = max(1, min(k, 2000000 // max(cap, 1000)))      # bounded model cost: k * capacity
+            k = max(1, min(k, 2000000 // max(cap, 1000), MAXLEN - 1 - len(sh)))      # bounded model cost: k * capacity
             ops.append("M%d,%d" % (k, nid[0] + 1))
             for j in range(k):
                 if not grow(len(sh) + 1):
@@ -107,6 +111,8 @@ def gen_big(rng, n):
 
         def do_shrink(k):
             nonlocal cap
+            if len(sh) + k >= MAXLEN:
+                k = 0
             ops.append("H%d" % k)
             ns = len(sh) + k
             if ns == cap:
@@ -135,7 +141,7 @@ def gen_big(rng, n):
                 f = rng.choice([1, 1.25, 1.5, 1.5, 1.51, 1.75, 2, 2, 2.5, 3])
                 i = int(f * cap) + rng.choice([-1, 0, 1])
                 if i >= MAXLEN:
-                    i = min(int(1.5 * cap) + 1, MAXLEN)
+                    i = int(1.5 * cap) + 1
                 do_put(max(i, 0), fresh(), rng.random() < 0.4)
             elif r < 0.48:
                 i = rng.choice([L - 1, L, L + 1, cap - 1, cap, cap + 1, 0, L // 2])
@@ -159,8 +165,6 @@ def gen_big(rng, n):
                 ops.append("G%d" % max(rng.choice([L - 1, L, cap - 1, cap, 2 * cap, rng.randint(0, max(L, 1))]), 0))
             elif r < 0.95:
                 k = rng.choice([0, 0, 1, cap - L, cap - L + 1, cap - L - 1, (1 << rng.randint(8, 15)) - L, 2 * cap - L])
-                if L + max(k, 0) >= MAXLEN:
-                    k = 0
                 do_shrink(max(k, 0))
             else:
                 ops.append("S")
@@ -521,4 +525,5 @@ LEVEL_TEXT = ("Machine-checked refinement: for every allocator behaviour, every 
               "extracted model and the ASan/UBSan build on generated histories aimed at the proof's case-split boundaries.")
 LEVEL_NOTE = ("Trusted: Coq kernel; extraction + OCaml glue; harness; libc malloc/realloc/qsort/bsearch (qsort/bsearch are compared through key "
               "sequences / found-ness only); the theorems are about the Gallina model, the C code is tied to it only by the checked "
-              "correspondence (sampled histories, not all).  Arrays above 2^60 slots are covered by the theorems but not by any run.")
+              "correspondence (sampled histories, not all).  Runs reach arrays of at most 100 000 elements / 200 000 slots (stack limit of the "
+              "extracted model driver); larger arrays, and those above 2^60 slots, are covered by the theorems but not by any run.")
